@@ -100,7 +100,7 @@ def check_c18(tier, replay=None):
         c = st['case']
         sh = c['shape']
         url = 'http://127.0.0.1:PORTX' + sh['path'] + ('' if sh['query'] == 'none' else '?' + sh['query'])
-        own = [] if sh['query'] in ('none', '') else [tuple(pct_decode(x.encode()).decode() for x in kv.split('=', 1)) for kv in sh['query'].split('&')]
+        own = [] if sh['query'] in ('none', '') else [tuple(pct_decode(x.encode()).decode() for x in kv.split('=', 1)) for kv in sh['query'].split('&') if kv]
         total = int(c['total'])
         # a torrent whose (single) file has the wanted total length; content is irrelevant here
         t = torrent_like(url, total)
